@@ -273,8 +273,7 @@ def gen_type_lemmas2(meta):
         g = [F(0), f"n * {F(1)}", f"n * (n - 1real) * {F(2)}", f"n * (n - 1real) * (n - 2real) * {F(3)}"]
         ens = [f"{m('powf', p, X + ['n'])} == {lift(p, X, ['(' + t + ')' for t in g])}" for p in parts]
         base = ["eps_r() > 0real", "powf_r(x_re, 0real) == 1real", "powf_r(x_re, 1real) == x_re", "powf_r(x_re, 2real) == x_re * x_re"]
-        gen = ["n != 0real", "n != 1real", "!(abs_r(n - 2real) < eps_r())",
-               f"{F(0)} == {F(3)} * x_re * x_re * x_re", f"{F(1)} == {F(3)} * x_re * x_re", f"{F(2)} == {F(3)} * x_re"]
+        gen = ["n != 0real", "n != 1real", "!(abs_r(n - 2real) < eps_r())"]
         what = "powf: every part = lift of n(n-1)..x^(n-k)"
         for cname, hy in [("n0", ["n == 0real"] + base), ("n1", ["n == 1real"] + base),
                           ("near2", ["abs_r(n - 2real) < eps_r()", "n == 2real"] + base), ("general", gen)]:
